@@ -175,3 +175,32 @@ Proof.
   - unfold CheckValidDseRevisionType.
     destruct (DseRevisionType_IsValid x), (ProtocolVersion_SupportsDseRevisionType v x); reflexivity.
 Qed.
+
+(* the version classes partition the supported versions: OSS = {2,3,4,5}, DSE = {0x41,0x42}, for EVERY integer *)
+Lemma version_classes :
+  (forall v : Z, ProtocolVersion_IsOss v = true <-> v = 2 \/ v = 3 \/ v = 4 \/ v = 5) /\
+  (forall v : Z, ProtocolVersion_IsDse v = true <-> v = 65 \/ v = 66) /\
+  (forall v : Z, ProtocolVersion_IsSupported v = orb (ProtocolVersion_IsOss v) (ProtocolVersion_IsDse v)) /\
+  (forall v : Z, andb (ProtocolVersion_IsOss v) (ProtocolVersion_IsDse v) = false).
+Proof.
+  assert (Hoss : forall v : Z, ProtocolVersion_IsOss v = true <-> v = 2 \/ v = 3 \/ v = 4 \/ v = 5).
+  { intro v. unfold ProtocolVersion_IsOss.
+    change ProtocolVersion2 with 2. change ProtocolVersion3 with 3. change ProtocolVersion4 with 4. change ProtocolVersion5 with 5.
+    destruct (Z.eqb_spec v 2); [intuition|]. destruct (Z.eqb_spec v 3); [intuition|].
+    destruct (Z.eqb_spec v 4); [intuition|]. destruct (Z.eqb_spec v 5); [intuition|].
+    split; [discriminate|]. intros [?|[?|[?|?]]]; contradiction. }
+  assert (Hdse : forall v : Z, ProtocolVersion_IsDse v = true <-> v = 65 \/ v = 66).
+  { intro v. unfold ProtocolVersion_IsDse. change ProtocolVersionDse1 with 65. change ProtocolVersionDse2 with 66.
+    destruct (Z.eqb_spec v 65); [intuition|]. destruct (Z.eqb_spec v 66); [intuition|].
+    split; [discriminate|]. intros [?|?]; contradiction. }
+  split; [exact Hoss|]. split; [exact Hdse|]. split.
+  - intro v. unfold ProtocolVersion_IsSupported, SupportedProtocolVersions, ProtocolVersion_IsOss, ProtocolVersion_IsDse.
+    cbn [existsb].
+    change ProtocolVersion2 with 2. change ProtocolVersion3 with 3. change ProtocolVersion4 with 4. change ProtocolVersion5 with 5.
+    change ProtocolVersionDse1 with 65. change ProtocolVersionDse2 with 66.
+    destruct (Z.eqb_spec v 2); [reflexivity|]. destruct (Z.eqb_spec v 3); [reflexivity|].
+    destruct (Z.eqb_spec v 4); [reflexivity|]. destruct (Z.eqb_spec v 5); [reflexivity|].
+    destruct (Z.eqb_spec v 65); [reflexivity|]. destruct (Z.eqb_spec v 66); reflexivity.
+  - intro v. destruct (ProtocolVersion_IsOss v) eqn:Eo; [|reflexivity]. destruct (ProtocolVersion_IsDse v) eqn:Ed; [|reflexivity].
+    apply Hoss in Eo. apply Hdse in Ed. exfalso. destruct Eo as [->|[->|[->| ->]]]; destruct Ed; discriminate.
+Qed.
